@@ -45,7 +45,7 @@ type RedisPermanent struct {
 	encs *encoder.Encoders
 	enc  encoder.Encoder
 	st   *redisstorage.Storage
-	l    sync.Mutex
+	l    sync.RWMutex
 }
 
 func NewRedisPermanent(
@@ -201,6 +201,11 @@ func (db *RedisPermanent) State(key string) (st base.State, found bool, _ error)
 	case j:
 		return i, j, nil
 	}
+
+	// NOTE merging replaces state and cleans it from cache under Lock; read
+	// and cache under RLock, not to cache the replaced one.
+	db.l.RLock()
+	defer db.l.RUnlock()
 
 	switch b, found, err := db.st.Get(context.Background(), redisStateKey(key)); {
 	case err != nil, !found:
